@@ -101,10 +101,10 @@ theorem C04_tie_comparisons :
 /-- fingerprints of the four functions of the PINNED module eth2-key-manager v1.4.0 (they can only change with a
     version bump in go.mod, after which the model has to be re-read against the new source) -/
 theorem C04_tie_library_sources :
-    Gen.src_lib_IsSlashableAttestation = "d628eca7d7dea427" ∧
-    Gen.src_lib_IsSlashableProposal = "a54c5c029bef7882" ∧
-    Gen.src_lib_UpdateHighestAttestation = "bce3da6024631f6f" ∧
-    Gen.src_lib_UpdateHighestProposal = "0618e1f24b682873" := by decide
+    Gen.src_lib_IsSlashableAttestation = "0d3fcaf5e4b7ad7e" ∧
+    Gen.src_lib_IsSlashableProposal = "401204009a0440b5" ∧
+    Gen.src_lib_UpdateHighestAttestation = "53158a76bf1028e3" ∧
+    Gen.src_lib_UpdateHighestProposal = "1e88491297e3c86d" := by decide
 
 /-! ## what the ghost log must never contain -/
 
